@@ -72,7 +72,10 @@ class SimProblem(Problem):
         N = actor.N
         self.numberOfFloatVariables = N
         self.dimension = N
-        self.numberOfDisreteVariables = 0
+        self.numberOfDisreteVariables = int(spec.get("n_discrete", 0))
+        if self.numberOfDisreteVariables:
+            self.discreteVariableNames = np.array(["d%d" % i for i in range(self.numberOfDisreteVariables)])
+            self.discreteVariableValues = [["A", "B"] for _ in range(self.numberOfDisreteVariables)]
         self.numberOfObjectives = 1
         self.numberOfConstraints = 0
         self.floatVariableNames = np.array([str(i) for i in range(N)])
@@ -355,6 +358,11 @@ class SolverActor:
                 if share and share in w.shared_params:
                     self.parameters = w.shared_params[share]     # one SolverParameters object used for several solvers
                     w.fired["solver_on_shared_parameters_object"] += 1
+                    for fld in ("eps", "r", "itersLimit", "refineSolution"):
+                        # the object may have been edited since the plan was written (setp on a sharing solver)
+                        self.params[fld] = type(self.params.get(fld, 0.0))(getattr(self.parameters, fld)) if fld != "refineSolution" \
+                            else bool(getattr(self.parameters, fld))
+                    self.model.r = float(self.params["r"])
                 else:
                     dens = p.get("evolventDensity", 10)
                     dt = self.spec.get("density_type")
@@ -366,7 +374,16 @@ class SolverActor:
                     rr = p["r"] if rt is None else (np.float64(p["r"]) if rt == "np.float64" else np.array(float(p["r"])))
                     kw = dict(eps=p.get("eps", 0.01), r=rr, itersLimit=p.get("itersLimit", 20000), evolventDensity=dens,
                               refineSolution=p.get("refineSolution", False))
-                    if self.spec.get("start_point") is not None:
+                    src = self.spec.get("start_point_from")
+                    if src and src in w.actors and w.actors[src].created and w.actors[src].aborted is None:
+                        try:
+                            other = w.actors[src].solver.GetResults().bestTrials[0].point
+                            if len(other.floatVariables) == self.N:
+                                kw["startPoint"] = other       # the very Point object another solver reported (no copy)
+                                w.fired["start_point_is_another_solvers_point_object"] += 1
+                        except BaseException:
+                            pass
+                    elif self.spec.get("start_point") is not None:
                         # the documented startPoint parameter (the method ignores it at this commit)
                         kw["startPoint"] = Point(np.array(self.spec["start_point"], dtype=np.double), [])
                     if self.spec.get("params_set") == "attr":
@@ -400,6 +417,30 @@ class SolverActor:
             self.construct_error = "%s: %s" % (type(e).__name__, e)
             self.aborted = "construct"
             w.log("construct_raised", self.aid, self.construct_error)
+
+    def query_search_data(self, op):
+        """The user READS the solver's search information (public attribute, handed to listeners): which interval covers a
+        point, or a walk that is abandoned half-way.  Reads must not steer the search."""
+        sd = self.solver.searchData
+        q = op["q"]
+        self.world.fired["search_data_read_" + q] += 1
+        try:
+            n = sd.GetCount()
+        except BaseException:
+            return None
+        if n < 2:
+            return None
+        if q == "find":
+            it = sd.FindDataItemByOneDimensionalPoint(float(op["x"]))
+            r = float(it.GetX()) if it is not None else None
+        else:
+            r = None
+            for j, it in enumerate(sd):
+                if j >= int(op.get("stop", 1)):
+                    r = float(it.GetX())
+                    break
+        self.world.log("sdq", self.aid, "%s -> %s" % (q, fhex(r) if r is not None else None))
+        return r
 
     def query_evolvent(self, op):
         """The user reads the solver's own evolvent (public attribute; a Listener receives it through
@@ -598,7 +639,7 @@ class SolverActor:
                 self.cb_depth = 0          # the notification loop is being abandoned: the closing bracket will not run
                 exc = core.EXC_KINDS[lf.get("exc", "ValueError")]("injected fault in listener %d %s #%d" % (lid, name, lf["index"]))
                 _INJECTED.append(exc)
-                self.fired_lfaults.append((lid, name, lf["index"]))
+                self.fired_lfaults.append((lid, name, lf["index"], self.op_no))
                 w.fired["listener_raise:" + name] += 1
                 w.log("ucb_raise", self.aid, "%d %s %s" % (lid, name, lf.get("exc", "ValueError")))
                 raise exc
@@ -889,7 +930,7 @@ class World:
     def _run_ops(self, ops, top, buf=None, host=None):
         for op in ops:
             a = self.actors[op["a"]]
-            if a.active and op["op"] in ("results", "evq") and a.created and a.aborted is None:
+            if a.active and op["op"] in ("results", "evq", "sdq") and a.created and a.aborted is None:
                 # a READ of the host solver itself from inside its own objective / listener call-out (an objective that
                 # logs the current best, a listener that maps a point back onto the curve): legal, and it must not steer
                 self.exec_self_read(a, op, host)
@@ -931,6 +972,8 @@ class World:
         try:
             if kind == "results":
                 outcome["result"] = a.solver.GetResults()
+            elif kind == "sdq":
+                outcome["sdq"] = a.query_search_data(op)
             else:
                 outcome["evq"] = a.query_evolvent(op)
         except HarnessError:
@@ -982,6 +1025,8 @@ class World:
                 a.solver.DoLocalRefinement(int(op["n"]))
             elif kind == "evq":
                 outcome["evq"] = a.query_evolvent(op)
+            elif kind == "sdq":
+                outcome["sdq"] = a.query_search_data(op)
             elif kind == "clone":
                 # checkpoint / rollback: the user continues with a deep copy of the solver
                 import copy as _copy
@@ -995,7 +1040,14 @@ class World:
                 # the user changes a public field of the SolverParameters object between calls (e.g. raises the budget
                 # and resumes); only generated for solvers that own their parameters object
                 setattr(a.parameters, op["field"], op["value"])
-                a.params[op["field"]] = op["value"]
+                for b in self.actors.values():
+                    # every solver that was given this very parameters object sees the change
+                    if b is a or (b.created and b.parameters is a.parameters):
+                        b.params[op["field"]] = op["value"]
+                        if op["field"] == "r":
+                            if b.trials or b.n_real_calls:
+                                raise HarnessError("plan changes r in mid-run (not generated: no property describes it)")
+                            b.model.r = float(op["value"])
                 self.fired["parameter_changed_between_calls"] += 1
             else:
                 raise HarnessError("unknown op %r" % kind)
